@@ -93,7 +93,15 @@ def judge(ctx, gname, g, m, f, T_l, P_l, rng):
             elif mex:
                 key = KF_MEXPR
             elif any(q[0] == "count" for q in R2.subformulas(f)):
-                key = KF_COUNT    # count() answers False when its bounded candidate search fails on an open tree
+                # count() answers False when its bounded candidate search fails on an open tree. Repaired twin: with "search
+                # exhausted" read as "not ready", does the contradiction vanish? (a premature verdict that count() gives
+                # without entering the search is not this mechanism)
+                from islamon import patches
+                with patches.count_search_not_a_verdict() as seen:
+                    vo2 = ev3(ctx, text, to_dt(P_l), g)
+                    vc2 = ev3(ctx, text, to_dt(C_l), g)
+                if seen["false_after_search_on_open_tree"] and (vo2 == "U" or (vo2 in ("T", "F") and vc2 == vo2)):
+                    key = KF_COUNT
             elif any(q[0] in ("forall", "exists") and any(kids(n) is None and lab(n) == q[1] and q[1] in m.reach()[q[1]] for _, n in nodes(P_l))
                      for q in R2.subformulas(f)):
                 key = KF_SELFREC   # an open leaf of the quantified (recursive) type: occurrences nested below it are not anticipated
